@@ -30,12 +30,38 @@ def repo_root() -> Path:
 class FuncInfo:
     module: "ModuleInfo"
     qualname: str  # e.g. "Operation.clone" or "top_level_fn"
-    node: ast.FunctionDef | ast.AsyncFunctionDef
+    raw_node: ast.FunctionDef | ast.AsyncFunctionDef  # the definition as written
     cls: "ClassInfo | None" = None
+    _norm: "ast.AST | None" = None
+
+    @property
+    def node(self) -> ast.FunctionDef | ast.AsyncFunctionDef:
+        """The definition with calls to private helpers inlined (xsa.normalize): what the rules analyse.
+        Identical to raw_node when nothing is inlinable.  Set XSA_NO_INLINE=1 to analyse the code as written."""
+        if self._norm is None:
+            if os.environ.get("XSA_NO_INLINE"):
+                self._norm = self.raw_node
+            else:
+                from .normalize import inline
+
+                try:
+                    self._norm = inline(self)
+                except RecursionError:
+                    self._norm = self.raw_node
+        return self._norm  # type: ignore[return-value]
+
+    def as_raw(self) -> "FuncInfo":
+        """The same function, analysed as written (no helper inlining): for sweeps that visit every function of a
+        module anyway, where inlining would only report a helper's sites a second time in each caller."""
+        r = getattr(self, "_raw_view", None)
+        if r is None:
+            r = FuncInfo(self.module, self.qualname, self.raw_node, self.cls, self.raw_node)
+            object.__setattr__(self, "_raw_view", r)
+        return r
 
     @property
     def name(self) -> str:
-        return self.node.name
+        return self.raw_node.name
 
     @property
     def fq(self) -> str:
@@ -43,10 +69,10 @@ class FuncInfo:
 
     @property
     def loc(self) -> str:
-        return f"{self.module.relpath}:{self.node.lineno}"
+        return f"{self.module.relpath}:{self.raw_node.lineno}"
 
     def decorator_names(self) -> list[str]:
-        return [dotted(d.func if isinstance(d, ast.Call) else d) for d in self.node.decorator_list]
+        return [dotted(d.func if isinstance(d, ast.Call) else d) for d in self.raw_node.decorator_list]
 
 
 @dataclass
@@ -115,6 +141,11 @@ class ModuleInfo:
     imports: dict[str, str] = field(default_factory=dict)  # local name -> dotted target
     assigns: dict[str, ast.expr] = field(default_factory=dict)  # module-level NAME = expr
     star_imports: list[str] = field(default_factory=list)  # modules imported with `from m import *`
+
+
+def raw_funcs(mi: "ModuleInfo"):
+    """All functions of a module as written (see FuncInfo.as_raw)."""
+    return [f.as_raw() for f in mi.functions.values()]
 
 
 def dotted(node: ast.AST) -> str:
